@@ -61,7 +61,12 @@ def flat(x):
 
 def apply(fn, sub, as_array, f):
     """call transform `fn` on `sub`; compare with own element-wise map f. -> error text or None"""
-    out = fn(np.array(sub) if as_array else sub)
+    arg = sub
+    if as_array:
+        arg = np.array(sub)
+        if as_array == "F" and arg.ndim == 2:
+            arg = np.array([list(col) for col in zip(*sub)]).T if arg.size else np.asfortranarray(arg)  # same content, column-major memory layout (a transposed view)
+    out = fn(arg)
     if not isinstance(out, np.ndarray) or tuple(out.shape) != shape_of(sub):
         return f"shape not preserved: input {shape_of(sub)} -> output {getattr(out, 'shape', type(out).__name__)}"
     got, want = [str(w) for w in out.flatten()], [f(w) for w in flat(sub)]
@@ -88,7 +93,7 @@ def check_shift(case):
     fwd = lambda w: wid(rc(w)[0] + dr, rc(w)[1] + dc)  # noqa: E731
     bwd = lambda w: wid(rc(w)[0] - dr, rc(w)[1] - dc)  # noqa: E731
     for sub in [plate(ra, ca)] + case.get("subs", []):
-        for arr in (False, True):
+        for arr in (False, True, "F"):
             try:
                 err = apply(sh.shift, sub, arr, fwd)
                 img = [fwd(w) for w in flat(sub)]
@@ -113,7 +118,7 @@ def check_rot(case):
     full = plate(R, C)
     try:
         for sub in [full] + case.get("subs", []):
-            for arr in (False, True):
+            for arr in (False, True, "F"):
                 err = apply(rot.rotate_cw, sub, arr, cw) or apply(rot.rotate_ccw, sub, arr, ccw)
                 if err:
                     return f"R1 shape {R}x{C} input {str(sub)[:60]}: {err}"
@@ -166,7 +171,7 @@ def check_rand(case):
         if [str(w) for w in b.derandomize_wells(out).flatten()] != flat(full):
             return f"Z2 {tag}: derandomize of a second instance with the same seed does not invert randomize"
         for sub in [full] + case.get("subs", []):
-            for arr in (False, True):
+            for arr in (False, True, "F"):
                 err = apply(a.randomize_wells, sub, arr, m.get) or apply(a.derandomize_wells, sub, arr, inv.get) \
                     or apply(lambda x: a.derandomize_wells(a.randomize_wells(x)), sub, arr, lambda w: w) \
                     or apply(lambda x: b.randomize_wells(a.derandomize_wells(x)), sub, arr, lambda w: w)
